@@ -52,6 +52,9 @@ def _main(prop, mod, modname, tier, seed, replay, ncases, no_prove, workdir, t0)
     known_seen: Dict[str, int] = {}
     lines: List[str] = []
 
+    if not replay:
+        for old in glob.glob(os.path.join(fw.VERIF, "replays", f"{prop}_{tier}_{seed}_*.json")):
+            os.remove(old)
     # 1. translate + 2. prove
     tr = translate.run(prop)
     if no_prove:
@@ -89,7 +92,9 @@ def _main(prop, mod, modname, tier, seed, replay, ncases, no_prove, workdir, t0)
         c["ranks"] = {int(k): v for k, v in c["ranks"].items()}
 
     # 4. run implementation, evaluate model
+    t_impl0 = time.time()
     impl = fw.run_impl_cases(modname, cases, workdir) if cases else {}
+    t_impl = time.time() - t_impl0
     terms = []
     for c in cases:
         res, err = impl[c["case_no"]]
@@ -97,7 +102,9 @@ def _main(prop, mod, modname, tier, seed, replay, ncases, no_prove, workdir, t0)
             t = mod.coq_term(c, res)
             if t is not None:
                 terms.append((c["case_no"], t))
+    t_model0 = time.time()
     model, eval_errors = fw.eval_coq_terms(mod.COQ_IMPORTS, terms, workdir) if terms else ({}, [])
+    t_model = time.time() - t_model0
 
     # 5. compare
     failures = []
@@ -179,7 +186,7 @@ def _main(prop, mod, modname, tier, seed, replay, ncases, no_prove, workdir, t0)
                 "samples": samples, "traces_validated_against_impl": evaluated,
                 "disagreements_checked": len(failures), "skipped_out_of_quantifier": skipped,
                 "input_histogram_totals": hist, "exhaustive": False,
-                "known_findings_seen": known_seen,
+                "known_findings_seen": known_seen, "phase_seconds": {"implementation": round(t_impl, 1), "model_in_coq": round(t_model, 1)},
                 "explanation": getattr(mod, "EXPLANATION", ""),
             },
             "assumptions": getattr(mod, "ASSUMPTIONS", []),
@@ -189,5 +196,5 @@ def _main(prop, mod, modname, tier, seed, replay, ncases, no_prove, workdir, t0)
         fw.write_json(os.path.join(fw.VERIF, "evidence", f"{prop}.json"), ev)
     print(f"[{prop}] tier={tier} seed={seed} obligations={prove.get('obligations')} discharged={prove.get('discharged')} "
           f"cases={evaluated} nontrivial={len(nontrivial)} skipped={skipped} disagreements={len(failures)} known={sum(known_seen.values())} "
-          f"violations={len(violations)} wall={wall:.0f}s")
+          f"violations={len(violations)} wall={wall:.0f}s (impl {t_impl:.0f}s, model {t_model:.0f}s)")
     return 1 if violations else 0
